@@ -504,7 +504,7 @@ pub fn run(ctx: &Ctx, rep: &mut Report) {
             prop_oneof![
                 2 => "\\PC{0,12}".prop_map(|s: String| s.into_bytes()),
                 // long texts (option values may be up to 65804 bytes long)
-                1 => ("[a-zé€😁 ]{1,8}", prop_oneof![Just(30usize), Just(140), Just(255), Just(256), Just(1034), Just(1035), Just(1300), 1usize..9000])
+                1 => ("[a-zé€😁 ]{1,8}", prop_oneof![Just(30usize), Just(140), Just(255), Just(256), Just(1034), Just(1035), Just(1300), Just(65_535), Just(65_536), Just(65_800), 1usize..9000])
                     .prop_map(|(unit, n)| unit.repeat(n / unit.len().max(1) + 1).into_bytes()),
                 1 => proptest::collection::vec(any::<char>(), 0..8).prop_map(|v| v.into_iter().collect::<String>().into_bytes()),
                 2 => ("\\PC{1,8}", any::<prop::sample::Index>(), any::<u8>()).prop_map(|(s, i, x)| {
